@@ -41,6 +41,26 @@ def statement_accept(pats):
                              and not any(r.search(name) for r in neg))
 
 
+def corpus_cases(prop, kind="world"):
+    """the inputs that once exposed a defect (corpus/<prop>/*.json), run before the generated ones"""
+    import glob
+    import json
+    from harness import common
+    out = []
+    for f in sorted(glob.glob(os.path.join(common.VERIF, "corpus", prop, "*.json"))):
+        try:
+            c = json.load(open(f))
+        except ValueError:
+            continue
+        if c.get("type") != kind:
+            continue
+        if kind == "world":
+            out.append(Case(c["world"], c["opts"], c.get("label", "")))
+        else:
+            out.append(c)
+    return out
+
+
 def accept_for(opts):
     pats = opts.get("test") or []
     if not pats:
